@@ -1019,7 +1019,10 @@ impl CompositionGraph {
             })
             .collect::<Vec<_>>()
         {
-            self.remove_node(node);
+            // A dependent may already have been removed along with an earlier one
+            if self.graph.contains_node(node.0) {
+                self.remove_node(node);
+            }
         }
 
         // Remove the node from the graph
